@@ -63,6 +63,10 @@ def gen_object(rng, exact=False):
         freqs = [float('%.3g' % f) for f in freqs]
     if rng.random() < 0.15:
         freqs = [0.0] + freqs[:-1]               # the grid starts at the DC point
+    elif rng.random() < 0.12 and nf > 1:
+        # a narrow-band sweep: neighbouring points 1 Hz .. 1 kHz apart at a gigahertz (they print alike at the default precision)
+        step = rng.choice([1.0, 10.0, 100.0, 1000.0])
+        freqs = [rng.choice([1e9, 2.4e9, 1e10]) + step * k for k in range(nf)]
     lines.append('vd 0 set_frequency_vector ' + ' '.join(vlib.d2h(f) for f in freqs))
     scale = {'z': 50.0, 'y': 0.02, 'zin': 50.0}.get(t, 1.0)
     if rng.random() < 0.25:
@@ -188,10 +192,22 @@ def run(chk):
         for fmt_, zs_ in (('prl', [0 + 10j, 20 + 10j]), ('prc', [0 - 10j, 5 - 1j]), ('srl', [0 + 10j, 7 + 0j]), ('src', [0 - 10j, 3 - 2j]), ('prl,zinri', [0 + 3j, 1e-3 + 5j])):
             ol_ = ['vd 0 alloc', 'vd 0 init %d 1 2 1' % TYPE['zin'], 'vd 0 set_frequency_vector ' + vlib.d2h(1e6), 'vd 0 set_matrix 0 ' + ' '.join(vlib.c2h(z_) for z_ in zs_)]
             forced.append((ol_, dict(type='zin', ports=2, rows=1, nf=1, z0kind='default'), fmt_))
+        # narrow-band sweeps in the Touchstone file types at the default and nearby frequency precisions (neighbouring points that print alike)
+        narrow = []
+        for ext_, step_ in (('.s2p', 10.0), ('.ts', 10.0), ('.s1p', 100.0), ('.ts', 1.0), ('.s2p', 1000.0)):
+            np_ = 1 if ext_ == '.s1p' else 2
+            fr_ = [1e9 + step_ * k for k in range(3)]
+            ol_ = ['vd 0 alloc', 'vd 0 init %d %d %d 3' % (TYPE['s'], np_, np_), 'vd 0 set_frequency_vector ' + ' '.join(vlib.d2h(f) for f in fr_)] + [
+                'vd 0 set_matrix %d %s' % (f, ' '.join(vlib.c2h(complex(0.1 * (f + 1), -0.05 * q)) for q in range(np_ * np_))) for f in range(3)]
+            narrow.append((ol_, dict(type='s', ports=np_, rows=np_, nf=3, z0kind='default', freqs=fr_), ext_))
         for k in range(N):
             if k < len(forced):
                 ol, obj, fmt = forced[k]
                 ext, ft, fp, dp = '.npd', 0, 9, 9
+            elif k < len(forced) + 2 * len(narrow):
+                ol, obj, ext = narrow[(k - len(forced)) // 2]
+                fmt, ft, dp = None, 0, 6
+                fp = (7, 9)[(k - len(forced)) % 2]
             else:
                 ol, obj = gen_object(rng)
                 ext = rng.choice(['.npd', '.npd', '.ts', '.ts', '.s%dp' % obj['ports'], '.s%dp' % rng.randint(1, 4), '.dat', '', '.NPD', '.TS', '.S%dP' % obj['ports']])
@@ -608,9 +624,10 @@ def verify_load(chk, c, dline, fline):
     d = parse_digest(fline) if lline.startswith('ok') else None
     F = c['read']
     fr = F['freqs']
-    if any(not b > a for a, b in zip(fr, fr[1:])):
-        # the requested fprecision made neighbouring frequencies equal: the file no longer has ascending frequencies
-        # (in a 2-port Touchstone 1 file a non-increasing frequency even starts the noise section)
+    if any(not b > a for a, b in zip(fr, fr[1:])) and c['kind'] == 'npd':
+        # the requested fprecision made neighbouring frequencies equal: an NPD file may hold them (nothing is compared then); in the
+        # Touchstone types the saver refuses such a precision (it would write a file the loader rejects, or one whose second block of
+        # a two-port Touchstone 1 file reads as noise data)
         chk.count('frequencies_merged_by_fprecision')
         return None
     if c['kind'] == 'npd':
@@ -622,10 +639,8 @@ def verify_load(chk, c, dline, fline):
                 return 'scalar-only', 'an NPD format list made only of IL / RL / VSWR is accepted by vnadata_cksave / vnadata_save and the file is refused by vnadata_load: %s' % lline[:80]
             return None
     if d is None:
-        fr = F['freqs']
-        if any(not b > a for a, b in zip(fr, fr[1:])):
-            chk.count('frequencies_merged_by_fprecision')      # the requested fprecision made neighbouring frequencies equal
-            return None
+        # (also when the requested fprecision made neighbouring frequencies print alike: the saver refuses that, it does not write a
+        # file the loader rejects)
         return 'refused', 'the loader rejects a file the saver wrote: %s' % lline[:80]
     if c['kind'] == 'npd':
         types = [pp or obj['type'] for pp, kk in F['formats']]
